@@ -265,6 +265,23 @@ def generic_check(pid, tier, seed, gens, driver, monitor, note, assumptions, lev
     return dict(level=level, coverage=coverage, assumptions=assumptions, failures=fails)
 
 
+def c09(pid, tier, seed):
+    q = tier == "quick"
+    allgaps = {1, 7, 1000, 15000, 3600000, 259200000}
+    gens = [("steady_e3", "MC_Estimator", dict(D=3 if q else 5, Mode="steady", GapMs=allgaps, StepSet={"1"}, RatePerMs=1), "bfs"),
+            ("steady_e6", "MC_Estimator", dict(D=3 if q else 4, Mode="steady", GapMs=allgaps, StepSet={"1"}, RatePerMs=1000), "bfs"),
+            ("free", "MC_Estimator", dict(D=3 if q else 4, Mode="free", GapMs={1, 1000, 15000, 259200000}, StepSet={"1", "e6", "e9"}, RatePerMs=1), "bfs"),
+            ("free_deep", "MC_Estimator", dict(D=14, Mode="free", GapMs=allgaps, StepSet={"1", "e3", "e6", "e9"}, RatePerMs=1), ("sim", 400 if q else 4000, 16))]
+    return generic_check(pid, tier, seed, gens, "est", "Trace_Estimator",
+                         "timed histories of updates (gaps 1 ms .. 3 days, steps 1 .. 10^9), stalls, reset_eta/reset/backwards seeks, finish, unset_length with a query after every step; "
+                         "laws: finite and non-negative, steady rate exact (1e-6), upper bound by the largest segment rate, monotone decay while stalled and below 1e-6 of the peak after ten minutes, "
+                         "forgetfulness against a fresh twin, eta = remaining/rate (0 when finished / no length / no progress), duration = elapsed + eta",
+                         ["f64 getters are logged as 16 significant decimal digits and an exponent; comparisons are exact on naturals with tolerance 1e-6 relative",
+                          "the exponential weighting itself is not modelled (TLC has no reals); only the laws the property states are checked",
+                          "queries are placed strictly after creation / reset / backwards seek, and updates are at least 1 ms apart"],
+                         shards=12, kf_fn=lambda h, v: ["KF-D22"] if v["rule"] == "DecayMonotoneLag" else [])
+
+
 def c07(pid, tier, seed):
     q = tier == "quick"
     gens = [("u64_visible", "MC_Logical", dict(D=3 if q else 4, Target="spy"), "bfs"),
@@ -412,6 +429,7 @@ PROPS = {
     "C05": c05,
     "C06": c06,
     "C07": c07,
+    "C09": c09,
     "C18": c18,
     "C16": c16,
     "C19": c19,
